@@ -94,6 +94,15 @@ Proof.
   - simpl. split; intros [H|H]; auto.
 Qed.
 
+Lemma In_runion q l : forall r, In q (runion r l) <-> In q r \/ In q l.
+Proof.
+  unfold runion. induction l as [|[a b] l IH]; intros r; simpl.
+  - tauto.
+  - rewrite IH, In_radd. split.
+    + intros [[->|H]|H]; auto.
+    + intros [H|[<-|H]]; auto.
+Qed.
+
 (** * the invariant *)
 Definition R (r : rel) : tag -> tag -> Prop := fun x y => In (x, y) r.
 
@@ -170,13 +179,13 @@ Proof.
   { intros x. simpl. rewrite In_image, Hdesc, Hanc. split; intros [H|H]; auto. }
   assert (InB : forall y, In y (p :: image (ha h) p) <-> y = p \/ clos_trans tag (R (hp h)) p y).
   { intros y. simpl. rewrite In_image, Hanc. split; intros [H|H]; auto. }
-  assert (NewA : forall x y, In (x, y) (ha h ++ product (t :: image (hd h) t) (p :: image (ha h) p))
+  assert (NewA : forall x y, In (x, y) (runion (ha h) (product (t :: image (hd h) t) (p :: image (ha h) p)))
                              <-> clos_trans tag (R (radd t p (hp h))) x y).
-  { intros x y. rewrite in_app_iff, In_product, InA, InB, TC, Hanc. tauto. }
+  { intros x y. rewrite In_runion, In_product, InA, InB, TC, Hanc. tauto. }
   split; [|exact HP].
   constructor; cbn [hp ha hd].
   - exact NewA.
-  - intros x y. rewrite !in_app_iff, !In_product, Hdesc. tauto.
+  - intros x y. rewrite !In_runion, !In_product, Hdesc. tauto.
   - intros x H. apply NewA in H. apply TC in H. destruct H as [H|[H1 H2]].
     + apply Hanc in H. eapply Hacyc; eauto.
     + apply Ncyc. apply Hanc.
